@@ -21,15 +21,18 @@ MODE = {"exposure": "MExposure", "seq": "MSeq", "dask": "MDask"}
 
 TRUSTED = [
     "translator/c19.py (mkdir retry-loop shape and exist_ok flag; exists-behaviour of every to_*/write_to_* writer; "
-    "the format dispatch tables of save_to_files and Outputs.save_to_file; extension templates) - fails closed",
+    "the format dispatch tables of save_to_files and Outputs.save_to_file; extension templates; build_filenames reads "
+    "only self.save_data_to_file; first-item/all-items and replace/merge shape of Outputs.save_to_file; the outputs "
+    "argument of run_pipeline in Observation._run_single_pipeline; the outputs entry of the dask kwargs) - fails closed",
     "correspondence harness: harness/props/c19.py generators, harness/drivers/c19.py (frozen datetime installed from "
     "outside, gated Path.mkdir for forced interleavings, pre-population wrapper around create_output_folder, file "
-    "decoding into integer tokens), probes/verif_probes_c19.py",
+    "decoding into integer tokens, histories on one running-mode object with in-place / assigned edits), "
+    "probes/verif_probes_c19.py",
     "modelled, not verified: atomicity of os.mkdir (one attempt = one step of the interleaving semantics), "
     "numpy/astropy/PIL/pandas file codecs, xarray construction of the /output node, dask scheduling",
 ]
 
-HEADER = ("From Coq Require Import List String ZArith.\nFrom PyxelV Require Import Model.Outputs.\n"
+HEADER = ("From Coq Require Import List String ZArith.\nFrom PyxelV Require Import Model.Outputs Model.OutputsHist.\n"
           "From PyxelGen Require Import Gen_C19.\nImport ListNotations.\nOpen Scope string_scope.\n")
 
 
@@ -139,6 +142,263 @@ def gen_flow(r, mode, scheduler="threads"):
     return c
 
 
+# ------------------------------------------------------------------------------------------ histories
+
+
+def py_apply_edit(cfg, e):
+    """Python mirror of OutputsHist.apply_edit — used ONLY to generate valid edits and to describe a failing
+    case; the judgement uses the Coq definition."""
+    import copy
+
+    cfg = copy.deepcopy(cfg)
+    k = e["op"]
+    req = cfg["req"]
+    if k == "folder":
+        cfg["folder"] = e["name"]
+    elif k == "prefix":
+        cfg["prefix"] = e["name"]
+    elif k == "set":
+        cfg["req"] = copy.deepcopy(e["req"])
+    elif k == "append_dict":
+        req.append(copy.deepcopy(e["dict"]))
+    elif k == "remove_dict":
+        del req[e["i"]]
+    else:
+        dct = req[e["i"]]
+        idx = [j for j, (b, _) in enumerate(dct) if b == e["b"]]
+        if k == "set_bucket":
+            if idx:
+                dct[idx[0]] = (e["b"], list(e["fmts"]))
+            else:
+                dct.append((e["b"], list(e["fmts"])))
+        elif k == "remove_bucket":
+            del dct[idx[0]]
+        elif k == "append_fmt":
+            dct[idx[0]] = (e["b"], list(dct[idx[0]][1]) + [e["f"]])
+        elif k == "remove_fmt":
+            fl = list(dct[idx[0]][1])
+            fl.remove(e["f"])
+            dct[idx[0]] = (e["b"], fl)
+        else:
+            raise ValueError(k)
+    cfg["req"] = [[(b, list(fl)) for b, fl in dct] for dct in cfg["req"]]
+    return cfg
+
+
+def gen_edit(r, cfg, mode, request_only=False, only=None):
+    """One valid edit of the current configuration."""
+    req = cfg["req"]
+    fmts = ["fits", "npy", "fits", "npy", "jpg"] if mode != "seq" else ["fits", "npy"]
+    kinds = ["append_dict", "append_fmt", "append_fmt", "set", "set_bucket"]
+    if not request_only:
+        kinds += ["folder", "prefix", "prefix"]
+    if only:
+        kinds = list(only)
+    if len(req) > 1:
+        kinds.append("remove_dict")
+    if any(len(d) > 1 for d in req):
+        kinds.append("remove_bucket")
+    if any(len(fl) > 1 for d in req for _, fl in d):
+        kinds += ["remove_fmt", "remove_fmt"]
+    k = r.choice(kinds)
+    inplace = r.random() < 0.65
+    if k == "folder":        # always a real change
+        return dict(op="folder", name=r.choice([x for x in ("A", "B", "C") if x != cfg["folder"]]))
+    if k == "prefix":
+        return dict(op="prefix", name=r.choice([x for x in ("", "foo_", "bar_") if x != cfg["prefix"]]))
+    if k == "set":
+        return dict(op="set", req=gen_req(r, mode, clean=True))
+    if k == "append_dict":
+        b = r.choice(BUCKETS)
+        return dict(op="append_dict", dict=[(b, [r.choice(fmts if b == "image" or mode != "seq" else ["fits", "npy"])])],
+                    inplace=inplace)
+    if k == "remove_dict":
+        return dict(op="remove_dict", i=r.randrange(len(req)), inplace=inplace)
+    if not req:
+        return dict(op="set", req=gen_req(r, mode, clean=True))
+    i = r.randrange(len(req))
+    if k == "set_bucket":
+        b = r.choice(BUCKETS)
+        return dict(op="set_bucket", i=i, b=b, fmts=[r.choice(["fits", "npy"])], inplace=inplace)
+    if k == "remove_bucket":
+        i = r.choice([j for j, d in enumerate(req) if len(d) > 1])
+        return dict(op="remove_bucket", i=i, b=r.choice(req[i])[0], inplace=inplace)
+    if k == "remove_fmt":
+        cands = [(j, b, fl) for j, d in enumerate(req) for b, fl in d if len(fl) > 1]
+        j, b, fl = r.choice(cands)
+        return dict(op="remove_fmt", i=j, b=b, f=r.choice(fl), inplace=inplace)
+    # append_fmt
+    if not req[i]:
+        return dict(op="set_bucket", i=i, b="image", fmts=["npy"], inplace=inplace)
+    b, fl = r.choice(req[i])
+    pool = [f for f in (fmts if (b == "image" or mode != "seq") else ["fits", "npy"]) if f not in fl] or ["txt"]
+    return dict(op="append_fmt", i=i, b=b, f=r.choice(pool), inplace=inplace)
+
+
+def gen_hist(r, mode, scheduler="threads", deferred=False, snapshot=False):
+    """`snapshot` = what the regenerated tables say about the lazy graph of a dask observation (does it hold its
+    own copy of the outputs?).  Without one, the request is not edited while a lazy result is pending: what the
+    code then reports is ill-formed (names under a stale format coordinate) and is covered by fixed cases."""
+    nruns = 1 if mode == "exposure" else r.choice([1, 2, 2, 3])
+    cfg = dict(req=gen_req(r, mode, clean=True), folder="A", prefix=r.choice(["", "", "foo_"]))
+    world = []
+    if r.random() < 0.6:
+        b = ("A/" + (cfg["prefix"] or "run_") + TS)
+        world.append([b, ["keep.txt"] + (["detector_image.npy"] if r.random() < 0.5 else [])])
+        if r.random() < 0.4:
+            world.append([b + "_1", []])
+        if r.random() < 0.3:
+            world.append(["B/run_" + TS, ["detector_pixel_0.npy"]])
+    ops, cur = [], cfg
+    pending = []
+
+    def edits(n, request_only=False):
+        nonlocal cur
+        for _ in range(n):
+            e = gen_edit(r, cur, mode, request_only)
+            if pending and not snapshot and e["op"] not in ("folder", "prefix"):
+                e = gen_edit(r, dict(cur, req=[]), mode, only=("folder", "prefix"))
+            cur = py_apply_edit(cur, e)
+            ops.append(["edit", e])
+
+    def pre_of():
+        if r.random() < 0.15:
+            cand = rendered_names(mode, cur["req"], nruns)
+            if cand:
+                return [r.choice(cand)]
+        return []
+
+    nsim = r.choice([2, 3, 3, 4])
+    for k in range(nsim):
+        if k:
+            edits(r.choice([1, 1, 2, 3]))
+        if deferred and mode == "dask" and r.random() < 0.7:
+            ops.append(["start", nruns, pre_of()])
+            pending.append(len([o for o in ops if o[0] in ("run", "start")]) - 1)
+            if r.random() < 0.4:
+                edits(1)
+            if r.random() < 0.5 and pending:
+                ops.append(["compute", pending.pop(r.randrange(len(pending)))])
+        else:
+            ops.append(["run", nruns, pre_of()])
+    r.shuffle(pending)
+    for i in pending:
+        ops.append(["compute", i])
+    c = dict(kind="hist", mode=mode, ts=TS, nruns=nruns, cfg=cfg, world=world, ops=ops)
+    if mode == "dask":
+        c["scheduler"] = scheduler
+    return c
+
+
+def gen_hist_exhaustive(modes, both_ways, snapshot, scheduler="threads"):
+    """Small-scope enumeration: run, ONE edit, run — for every kind of edit (in place and by assignment), every
+    mode; for the parallel observation also start, edit, start, compute, compute."""
+    base = [[("image", ["fits", "npy"]), ("pixel", ["npy"])], [("signal", ["npy"])]]
+    edits = [
+        dict(op="set", req=[[("charge", ["npy"])]]),
+        dict(op="append_dict", dict=[("photon", ["npy"])]),
+        dict(op="remove_dict", i=1),
+        dict(op="set_bucket", i=0, b="charge", fmts=["fits"]),
+        dict(op="set_bucket", i=0, b="image", fmts=["npy"]),
+        dict(op="remove_bucket", i=0, b="pixel"),
+        dict(op="append_fmt", i=0, b="pixel", f="fits"),
+        dict(op="remove_fmt", i=0, b="image", f="fits"),
+        dict(op="folder", name="B"),
+        dict(op="prefix", name="foo_"),
+    ]
+    out = []
+    for mode in modes:
+        nruns = 1 if mode == "exposure" else 2
+        for e in edits:
+            ways = [True, False] if (both_ways and e["op"] not in ("set", "folder", "prefix")) else [True]
+            for inplace in ways:
+                ed = dict(e) if e["op"] in ("set", "folder", "prefix") else dict(e, inplace=inplace)
+                shapes = [[["run", nruns, []], ["edit", ed], ["run", nruns, []]]]
+                if mode == "dask" and (snapshot or e["op"] in ("folder", "prefix")):
+                    shapes.append([["start", nruns, []], ["edit", ed], ["start", nruns, []], ["compute", 0],
+                                   ["compute", 1]])
+                for ops in shapes:
+                    c = dict(kind="hist", mode=mode, ts=TS, nruns=nruns,
+                             cfg=dict(req=[[(b, list(fl)) for b, fl in d] for d in base], folder="A", prefix=""),
+                             world=[["A/run_" + TS, ["keep.txt"]]], ops=ops)
+                    if mode == "dask":
+                        c["scheduler"] = scheduler
+                    out.append(c)
+    return out
+
+
+def sims_of(c):
+    """Python mirror of OutputsHist.sims (description of failing cases only)."""
+    cur, out, ep = c["cfg"], [], 0
+    for o in c["ops"]:
+        if o[0] == "edit":
+            cur = py_apply_edit(cur, o[1])
+        elif o[0] in ("run", "start"):
+            out.append(dict(ep=ep, req=cur["req"], folder=cur["folder"], prefix=cur["prefix"], pre=o[2],
+                            lazy=o[0] == "start"))
+            ep += 1
+    return out
+
+
+HIST_ADVERSARIAL = [
+    # the request grows in place between two runs of one configuration
+    dict(kind="hist", mode="exposure", ts=TS, nruns=1, cfg=dict(req=[[("image", ["fits"])]], folder="A", prefix=""),
+         world=[], ops=[["run", 1, []],
+                        ["edit", dict(op="append_dict", dict=[("pixel", ["npy"])], inplace=True)],
+                        ["edit", dict(op="append_fmt", i=0, b="image", f="npy", inplace=True)],
+                        ["run", 1, []],
+                        ["edit", dict(op="set", req=[[("signal", ["npy", "fits"])]])],
+                        ["run", 1, []]]),
+    # ... and shrinks in place
+    dict(kind="hist", mode="exposure", ts=TS, nruns=1,
+         cfg=dict(req=[[("image", ["fits", "npy"]), ("pixel", ["npy"])]], folder="A", prefix=""),
+         world=[["A/run_" + TS, ["keep.txt"]]],
+         ops=[["run", 1, []], ["edit", dict(op="remove_fmt", i=0, b="image", f="fits", inplace=True)],
+              ["edit", dict(op="remove_bucket", i=0, b="pixel", inplace=True)], ["run", 1, []]]),
+    dict(kind="hist", mode="dask", ts=TS, nruns=2, cfg=dict(req=[[("image", ["npy"])]], folder="A", prefix=""),
+         world=[], scheduler="threads",
+         ops=[["run", 2, []], ["edit", dict(op="append_dict", dict=[("charge", ["npy"])], inplace=True)],
+              ["run", 2, []], ["edit", dict(op="folder", name="B")], ["edit", dict(op="prefix", name="foo_")],
+              ["run", 2, []]]),
+    dict(kind="hist", mode="seq", ts=TS, nruns=2, cfg=dict(req=[[("image", ["npy"])]], folder="A", prefix="foo_"),
+         world=[], ops=[["run", 2, []], ["edit", dict(op="append_fmt", i=0, b="image", f="fits", inplace=True)],
+                        ["run", 2, []], ["edit", dict(op="append_dict", dict=[("signal", ["npy"])], inplace=False)],
+                        ["run", 2, []]]),
+    # folder and prefix changed and changed back
+    dict(kind="hist", mode="exposure", ts=TS, nruns=1, cfg=dict(req=[[("image", ["npy"])]], folder="A", prefix="foo_"),
+         world=[["A/run_" + TS, ["keep.txt"]]],
+         ops=[["run", 1, []], ["edit", dict(op="prefix", name="")], ["run", 1, []],
+              ["edit", dict(op="folder", name="B")], ["edit", dict(op="prefix", name="bar_")], ["run", 1, []],
+              ["edit", dict(op="folder", name="A")], ["edit", dict(op="prefix", name="foo_")], ["run", 1, []]]),
+    # two dask observations started on one object before either is computed
+    dict(kind="hist", mode="dask", ts=TS, nruns=2, cfg=dict(req=[[("image", ["npy"])]], folder="A", prefix=""),
+         world=[], scheduler="threads", ops=[["start", 2, []], ["start", 2, []], ["compute", 0], ["compute", 1]]),
+    dict(kind="hist", mode="dask", ts=TS, nruns=1, cfg=dict(req=[[("pixel", ["npy"])]], folder="A", prefix=""),
+         world=[], scheduler="threads",
+         ops=[["start", 1, []], ["edit", dict(op="append_fmt", i=0, b="pixel", f="fits", inplace=True)],
+              ["edit", dict(op="folder", name="B")], ["start", 1, []], ["compute", 1], ["compute", 0]]),
+]
+
+
+AUTO_MIDS = ["1", "2", "3", "9", "10", "12", "99", "007", "0", "", "x", "3a", "a7", "run12", "2.5", "1.bak", "-4",
+             "100", "41"]
+AUTO_WRITERS = [("to_npy", "npy"), ("to_fits", "fits"), ("to_txt", "txt"), ("to_csv", "csv"), ("to_png", "png"),
+                ("to_jpg", "jpg")]
+
+
+def gen_auto(r, n):
+    cases = [dict(kind="auto", writer="to_npy", ext="npy", mids=[]),
+             dict(kind="auto", writer="to_npy", ext="npy", mids=["1", "2", "3"]),
+             dict(kind="auto", writer="to_fits", ext="fits", mids=["9", "10"]),          # 10 > 9: not a string order
+             dict(kind="auto", writer="to_txt", ext="txt", mids=["007", "x"]),
+             dict(kind="auto", writer="to_npy", ext="npy", mids=["", "a7", "2.5"])]
+    for _ in range(n):
+        w, e = r.choice(AUTO_WRITERS)
+        cases.append(dict(kind="auto", writer=w, ext=e, mids=r.sample(AUTO_MIDS, r.randrange(0, 6))))
+    return cases
+
+
+
 ADVERSARIAL = [
     # repeated starts within one second, directory of that second already there
     dict(kind="dirs_seq", ts=TS, pre=[f"run_{TS}"], prefixes=["", "", ""]),
@@ -168,13 +428,15 @@ ADVERSARIAL = [
 
 
 def gen_all(ctx: Ctx, salt: str, scale: int = 1):
+    snapshot = "t_dask_snapshot := true" in ctx.cov.get("_gen_text", "")
     r = ctx.rng(salt)
     q = ctx.quick
     max_n = 5 if q else 8
-    cases = [dict(c) for c in ADVERSARIAL] if salt == "cases" else []
+    cases = [dict(c) for c in ADVERSARIAL + HIST_ADVERSARIAL] if salt == "cases" else []
     cases += gen_dirs(ctx, r, scale * (25 if q else 120), scale * (30 if q else 200), scale * (8 if q else 28),
                       max_n if scale == 1 else 8)
     cases += gen_writers()
+    cases += gen_auto(ctx.rng(salt + "/auto"), scale * (20 if q else 120))
     for _ in range(scale * (40 if q else 200)):
         cases.append(gen_flow(r, "exposure"))
     for _ in range(scale * (32 if q else 160)):
@@ -182,6 +444,16 @@ def gen_all(ctx: Ctx, salt: str, scale: int = 1):
     scheds = ["threads"] if q else ["threads", "synchronous", "threads"]
     for k in range(scale * (10 if q else 45)):
         cases.append(gen_flow(r, "dask", scheds[k % len(scheds)]))
+    if salt == "cases":
+        cases += (gen_hist_exhaustive(["exposure"], False, snapshot) if q
+                  else gen_hist_exhaustive(["exposure", "seq", "dask"], True, snapshot))
+    rh = ctx.rng(salt + "/hist")
+    for k in range(scale * (10 if q else 60)):
+        cases.append(gen_hist(rh, "exposure"))
+    for k in range(scale * (7 if q else 40)):
+        cases.append(gen_hist(rh, "seq"))
+    for k in range(scale * (8 if q else 40)):
+        cases.append(gen_hist(rh, "dask", scheds[k % len(scheds)], deferred=(k % 2 == 1), snapshot=snapshot))
     return cases
 
 
@@ -215,6 +487,11 @@ def emit_case(c, o):
     if k == "writer":
         return (f"{{| w_name := {cs(c['writer'])}; w_exists := {core.cbool(c['exists'])}; w_out := {o['out']}; "
                 f"w_changed := {core.cbool(o['changed'])} |}}")
+    if k == "hist":
+        return emit_hist(c, o)
+    if k == "auto":
+        return (f"{{| au_mids := {core.clist(cs(x) for x in c['mids'])}; au_new := {cs(o['new'])}; "
+                f"au_intact := {core.cbool(o['intact'])}; au_created := {core.cnat(o['created'])} |}}")
     if k == "flow":
         pre = [(n, -10 - i) for i, n in enumerate(c["pre"])]
         rep = core.clist(f"({core.cnat(r)}, {BCOQ[b]}, {FCOQ[f]}, {cs(n)})" for r, b, f, n in o["rep"])
@@ -222,6 +499,58 @@ def emit_case(c, o):
         return (f"{{| f_mode := {MODE[c['mode']]}; f_req := {emit_req(c['req'])}; f_nruns := {core.cnat(c['nruns'])}; "
                 f"f_pre := {emit_files(pre)}; f_err := {err}; f_rep := {rep}; f_files := {emit_files(o['files'])} |}}")
     raise ValueError(k)
+
+
+def emit_edit(e):
+    k = e["op"]
+    if k == "folder":
+        return f"ESetFolder {cs(e['name'])}"
+    if k == "prefix":
+        return f"ESetPrefix {cs(e['name'])}"
+    if k == "set":
+        return f"ESetReq {emit_req(e['req'])}"
+    if k == "append_dict":
+        return f"EAppendDict {emit_req([e['dict']])[1:-1]}"
+    if k == "remove_dict":
+        return f"ERemoveDict {core.cnat(e['i'])}"
+    if k == "set_bucket":
+        return f"ESetBucket {core.cnat(e['i'])} {BCOQ[e['b']]} {core.clist(FCOQ[f] for f in e['fmts'])}"
+    if k == "remove_bucket":
+        return f"ERemoveBucket {core.cnat(e['i'])} {BCOQ[e['b']]}"
+    if k == "append_fmt":
+        return f"EAppendFmt {core.cnat(e['i'])} {BCOQ[e['b']]} {FCOQ[e['f']]}"
+    if k == "remove_fmt":
+        return f"ERemoveFmt {core.cnat(e['i'])} {BCOQ[e['b']]} {FCOQ[e['f']]}"
+    raise ValueError(k)
+
+
+def emit_op(o):
+    if o[0] == "edit":
+        return f"Edit ({emit_edit(o[1])})"
+    if o[0] in ("run", "start"):
+        pre = [(n, -10 - i) for i, n in enumerate(o[2])]
+        return f"{'Run' if o[0] == 'run' else 'Start'} {core.cnat(o[1])} {emit_files(pre)}"
+    if o[0] == "compute":
+        return f"Compute {core.cnat(o[1])}"
+    raise ValueError(o[0])
+
+
+def emit_world(w):
+    return core.clist(f"({cs(d)}, {emit_files(fl)})" for d, fl in w)
+
+
+def emit_hist(c, o):
+    w0 = [(d, [(n, -10 - i) for i, n in enumerate(names)]) for d, names in c["world"]]
+    recs = core.clist(
+        f"{{| r_ep := {core.cnat(x['ep'])}; r_dir := {cs(x['dir'])}; r_at := {cs(x['at'])}; "
+        f"r_rep := {core.clist(f'({core.cnat(r)}, {BCOQ[b]}, {FCOQ[f]}, {cs(n)})' for r, b, f, n in x['rep'])}; "
+        f"r_err := {'None' if x['err'] is None else '(Some ' + x['err'] + ')'}; r_files := {emit_files(x['files'])} |}}"
+        for x in o["recs"])
+    cfg = c["cfg"]
+    return (f"{{| hc_mode := {MODE[c['mode']]}; hc_ts := {cs(c['ts'])}; "
+            f"hc_cfg := {{| c_req := {emit_req(cfg['req'])}; c_folder := {cs(cfg['folder'])}; c_prefix := {cs(cfg['prefix'])} |}}; "
+            f"hc_world := {emit_world(w0)}; hc_ops := {core.clist(emit_op(x) for x in c['ops'])}; "
+            f"hc_recs := {recs}; hc_final := {emit_world(o['final'])} |}}")
 
 
 EVALS = {
@@ -234,15 +563,26 @@ EVALS = {
     "flow": ("flow_case", [
         "mismatches (flow_model_ok src_tables) cases",
         "violations (fun c => spec_unchanged (f_pre c) (f_files c)) cases",
-        "violations (fun c => match f_err c with Some _ => true | None => spec_attributed (f_rep c) (f_files c) end) cases",
+        "violations (fun c => match f_err c with Some _ => true | None => spec_attributed 0 (f_rep c) (f_files c) end) cases",
         "violations (fun c => match f_err c with Some _ => true | None => spec_complete (f_req c) "
         "(match f_mode c with MExposure => 1 | _ => f_nruns c end) (f_rep c) end) cases",
         "violations (fun c => match f_err c with Some _ => true | None => spec_named (f_mode c) (f_rep c) end) cases",
         "violations (flow_spec_ok src_tables) cases",
     ]),
+    "auto": ("auto_case", ["mismatches (auto_model_ok src_auto) cases", "violations auto_spec_ok cases"]),
+    "hist": ("hist_case", [
+        "mismatches (hist_model_ok src_tables src_mkdir_exclusive) cases",
+        "violations (fun c => hist_dirs_ok (hc_world c) (hc_sims c) (hc_recs c)) cases",
+        "violations (fun c => hist_unchanged_ok (hc_world c) (hc_sims c) (hc_recs c) (hc_final c)) cases",
+        "violations (fun c => forallb rec_attr_ok (hc_recs c)) cases",
+        "violations (fun c => forallb (rec_complete_ok (hc_mode c) (hc_sims c)) (hc_recs c)) cases",
+        "violations (fun c => forallb (rec_named_ok (hc_mode c)) (hc_recs c)) cases",
+        "violations hist_case_spec_ok cases",
+    ]),
 }
-HAS_MODEL = {"dirs_seq", "dirs_sched", "writer", "flow"}
+HAS_MODEL = {"dirs_seq", "dirs_sched", "writer", "flow", "hist", "auto"}
 FLOW_CLAUSES = ["clobbered", "misattributed", "incomplete", "misnamed"]
+HIST_CLAUSES = ["wrong_directory", "clobbered", "misattributed", "incomplete", "misnamed"]
 
 
 def emit_file(kind, pairs):
@@ -263,6 +603,14 @@ def usable(c, o):
         return str(o)[:400]
     if "error" in o:
         return o["error"]
+    if c["kind"] == "hist":
+        for x in o["recs"]:
+            for r, b, f, n in x["rep"]:
+                if b not in BCOQ or f not in FCOQ or not all(32 <= ord(ch) < 127 for ch in n):
+                    return f"unexpected reported entry {(r, b, f, n)}"
+            for n, _ in x["files"]:
+                if not all(32 <= ord(ch) < 127 and ch != '"' for ch in n):
+                    return f"unexpected file name {n!r}"
     if c["kind"] == "flow":
         for r, b, f, n in o["rep"]:
             if b not in BCOQ or f not in FCOQ or not all(32 <= ord(ch) < 127 for ch in n):
@@ -273,35 +621,37 @@ def usable(c, o):
     return None
 
 
-def expected_content(r, b, f):
-    return -2 if f in ("png", "jpg", "jpeg") else 16 * (r + 1) + BUCKETS.index(b)
+def expected_content(r, b, f, ep=0):
+    return -2 if f in ("png", "jpg", "jpeg") else 256 * ep + 16 * (r + 1) + BUCKETS.index(b)
 
 
-def flow_violation(c, o, clause) -> Violation:
-    mode = c["mode"]
-    files = dict((n, t) for n, t in o["files"])
-    sig = dict(clause=clause, mode=mode)
-    detail = ""
+def classify_flow(mode, req, nruns, pre, rep, files_list, clause, ep=0):
+    """(is this the offending run, signature part, description) — description of a failing case only; the
+    judgement was made in Coq."""
+    files = dict((n, t) for n, t in files_list)
+    sig, detail, bad_any = {}, "", False
     if clause == "clobbered":
-        bad = [n for i, n in enumerate(c["pre"]) if files.get(n) != -10 - i]
+        bad = [n for i, n in enumerate(pre) if files.get(n) != -10 - i]
         sig["ext"] = sorted({n.rsplit(".", 1)[-1] for n in bad})[0] if bad else "?"
         detail = f"pre-existing file(s) changed or removed: {bad}"
+        bad_any = bool(bad)
     elif clause == "misattributed":
-        bad = [(r, b, f, n) for r, b, f, n in o["rep"] if files.get(n) != expected_content(r, b, f)]
-        sig["cause"] = ("prepopulated_name_skipped" if bad and all(n in c["pre"] and files.get(n, 0) <= -10
+        bad = [(r, b, f, n) for r, b, f, n in rep if files.get(n) != expected_content(r, b, f, ep)]
+        sig["cause"] = ("prepopulated_name_skipped" if bad and all(n in pre and files.get(n, 0) <= -10
                                                                    for _, _, _, n in bad) else "other")
         detail = f"reported file(s) not holding the bucket of their run: {bad[:4]}"
+        bad_any = bool(bad)
     elif clause == "incomplete":
-        n = 1 if mode == "exposure" else c["nruns"]
-        want = {(r, b, f) for r in range(n) for dct in c["req"] for b, fl in dct for f in fl}
+        n = 1 if mode == "exposure" else nruns
+        want = {(r, b, f) for r in range(n) for dct in req for b, fl in dct for f in fl}
         got = {}
-        for r, b, f, nm in o["rep"]:
+        for r, b, f, nm in rep:
             got.setdefault((r, b, f), set()).add(nm)
         missing = sorted(want - set(got))
         extra = sorted(set(got) - want)
         multi = sorted(k for k, v in got.items() if len(v) > 1)
         first = {}
-        for dct in c["req"]:
+        for dct in req:
             if dct:
                 first[dct[0][0]] = set(dct[0][1])      # a later dict replaces an earlier one for the same bucket
         by_defect = {(b, f) for b, fl in first.items() for f in fl}
@@ -310,10 +660,81 @@ def flow_violation(c, o, clause) -> Violation:
         else:
             sig["cause"] = "other"
         detail = f"missing {missing[:4]} extra {extra[:4]} several names {multi[:4]}"
+        bad_any = bool(missing or extra or multi)
     elif clause == "misnamed":
         detail = "a reported name does not follow the naming convention of its mode"
+        bad_any = True
+    return bad_any, sig, detail
+
+
+def flow_violation(c, o, clause) -> Violation:
+    mode = c["mode"]
+    _, extra, detail = classify_flow(mode, c["req"], c["nruns"], c["pre"], o["rep"], o["files"], clause)
+    sig = dict(clause=clause, mode=mode)
+    sig.update(extra)
     return Violation(clause=clause, case=c, observed=o, expected="Model/Outputs.v flow_spec_ok",
                      what=f"{mode}: {detail}", sig=sig)
+
+
+def hist_violation(c, o, clause) -> Violation:
+    """Describe a failing history: which simulation, what was in force when it started."""
+    mode = c["mode"]
+    ss = {x["ep"]: x for x in sims_of(c)}
+    deferred = any(op[0] == "start" for op in c["ops"])
+    sig = dict(clause=clause, mode=mode, hist=True, deferred=deferred)
+    detail = ""
+    final = dict((d, fl) for d, fl in o["final"])
+    for x in o["recs"]:
+        sim = ss.get(x["ep"])
+        if sim is None:
+            continue
+        if clause == "wrong_directory":
+            base = f"{sim['folder']}/{sim['prefix'] or 'run_'}{c['ts']}"
+            own = x["at"] == x["dir"]
+            named = x["dir"] == base or (x["dir"].startswith(base + "_") and x["dir"][len(base) + 1:].isdigit())
+            fresh = x["dir"] not in [d for d, _ in c["world"]]
+            if own and named and fresh:
+                continue
+            sig["cause"] = "not_its_own_directory" if not own else ("not_fresh" if not fresh else "folder_or_prefix")
+            detail = (f"simulation {x['ep']} created {x['dir']} and wrote into {x['at']}; folder/prefix in force when it "
+                      f"started: {base}")
+        else:
+            bad, extra, d2 = classify_flow(mode, sim["req"], c["nruns"], sim["pre"], x["rep"], x["files"], clause, x["ep"])
+            if x["err"] is not None and clause != "clobbered":
+                continue
+            if not bad and clause == "clobbered":
+                now = final.get(x["at"])
+                if now is None or sorted(map(tuple, now)) == sorted(map(tuple, x["files"])):
+                    continue
+                extra, d2 = dict(ext="?", cause="touched_by_a_later_simulation"), (
+                    f"directory {x['at']} changed after simulation {x['ep']} had finished")
+            elif not bad:
+                continue
+            sig.update(extra)
+            detail = f"simulation {x['ep']} (request in force when it started: {sim['req']}): {d2}"
+        sig["after_edit"] = any(op[0] == "edit" and op[1]["op"] not in ("folder", "prefix")
+                                for op in c["ops"][:_op_index_of_sim(c, x["ep"])])
+        break
+    else:
+        if clause == "wrong_directory":
+            dirs = [x["dir"] for x in o["recs"]]
+            sig["cause"] = "directories_collide" if len(set(dirs)) != len(dirs) else "simulation_not_recorded"
+            detail = f"directories {dirs}"
+        elif clause == "clobbered":
+            sig.update(ext="?", cause="foreign_directory_touched")
+            detail = "a directory that existed before the history was changed"
+    return Violation(clause=clause, case=c, observed=o, expected="Model/OutputsHist.v hist_spec_ok",
+                     what=f"history on one {mode} configuration ({len(ss)} simulations): {detail}", sig=sig)
+
+
+def _op_index_of_sim(c, ep):
+    k = -1
+    for i, op in enumerate(c["ops"]):
+        if op[0] in ("run", "start"):
+            k += 1
+            if k == ep:
+                return i
+    return len(c["ops"])
 
 
 def dir_violation(c, o) -> Violation:
@@ -332,6 +753,83 @@ def dir_violation(c, o) -> Violation:
     return Violation(clause=clause, case=c, observed=o, expected="pairwise distinct, not pre-existing, returned within |fs|+1 attempts",
                      what=f"{c['kind']} ({len(names)} starts, same second): {clause}: {names}",
                      sig=dict(clause=clause, how=c.get("how", c["kind"])))
+
+
+def _valid_hist(c) -> bool:
+    """Do the edits of the history still apply (python mirror), and do the computes name lazy starts?"""
+    try:
+        cur, kinds = c["cfg"], []
+        for o in c["ops"]:
+            if o[0] == "edit":
+                e = o[1]
+                if e["op"] in ("remove_fmt", "append_fmt", "remove_bucket"):
+                    if not any(b == e["b"] for b, _ in cur["req"][e["i"]]):
+                        return False
+                if e["op"] == "set_bucket" and e["i"] >= len(cur["req"]):
+                    return False
+                cur = py_apply_edit(cur, e)
+            elif o[0] in ("run", "start"):
+                kinds.append(o[0])
+            elif o[0] == "compute":
+                if o[1] >= len(kinds) or kinds[o[1]] != "start":
+                    return False
+                kinds[o[1]] = "done"
+        return any(o[0] in ("run", "start") for o in c["ops"])
+    except Exception:  # noqa: BLE001
+        return False
+
+
+def _drop_op(c, k):
+    """The history without operation k (compute indices renumbered when a simulation is dropped)."""
+    import copy
+
+    c2 = copy.deepcopy(c)
+    o = c2["ops"].pop(k)
+    if o[0] in ("run", "start"):
+        idx = sum(1 for x in c["ops"][:k] if x[0] in ("run", "start"))
+        ops = []
+        for x in c2["ops"]:
+            if x[0] == "compute":
+                if x[1] == idx:
+                    continue
+                if x[1] > idx:
+                    x = ["compute", x[1] - 1]
+            ops.append(x)
+        c2["ops"] = ops
+    return c2
+
+
+def shrink_hist(ctx: Ctx, v: Violation, rounds: int = 5) -> Violation:
+    """Greedy one-step reductions of a failing history (drop an operation, a pre-populated file, a foreign
+    directory), each candidate run against implementation and specification again; keeps the clause."""
+    import copy
+
+    best = v
+    for _ in range(rounds):
+        c = best.case
+        cands = [_drop_op(c, k) for k in range(len(c["ops"]))]
+        for k, o in enumerate(c["ops"]):
+            if o[0] in ("run", "start") and o[2]:
+                c2 = copy.deepcopy(c)
+                c2["ops"][k][2] = []
+                cands.append(c2)
+        if c["world"]:
+            c2 = copy.deepcopy(c)
+            c2["world"] = []
+            cands.append(c2)
+        cands = [x for x in cands if _valid_hist(x) and size_of(x) < size_of(c)]
+        if not cands:
+            break
+        saved = list(ctx.broken)
+        try:
+            _, _, viols = evaluate(ctx, cands, "shr")
+        finally:
+            ctx.broken[:] = saved
+        same = [w for w in viols if w.clause == best.clause and w.sig.get("cause") == best.sig.get("cause")]
+        if not same:
+            break
+        best = min(same, key=lambda w: size_of(w.case))
+    return best
 
 
 def size_of(c):
@@ -357,7 +855,7 @@ def evaluate(ctx: Ctx, cases, tag: str):
         by_kind.setdefault(c["kind"], []).append((c, o))
     files, chunks = {}, {}
     for kind, pairs in by_kind.items():
-        per = 40 if kind == "flow" else 60
+        per = 40 if kind == "flow" else 12 if kind == "hist" else 60
         for k in range(0, len(pairs), per):
             name = f"{tag}_{kind}_{k // per:03d}"
             files[name] = emit_file(kind, pairs[k:k + per])
@@ -385,6 +883,25 @@ def evaluate(ctx: Ctx, cases, tag: str):
                 if i not in found:
                     viols.append(Violation("flow_spec", chunk[i][0], chunk[i][1], "flow_spec_ok", "flow specification",
                                            dict(clause="flow_spec")))
+        elif kind == "hist":
+            found = set()
+            for clause, idx in zip(HIST_CLAUSES, lists[:5]):
+                for i in idx:
+                    viols.append(hist_violation(chunk[i][0], chunk[i][1], clause))
+                    found.add(i)
+            for i in lists[5]:
+                if i not in found:
+                    viols.append(Violation("hist_spec", chunk[i][0], chunk[i][1], "hist_spec_ok",
+                                           "history specification", dict(clause="hist_spec")))
+        elif kind == "auto":
+            for i in lists[0]:
+                c, o = chunk[i]
+                viols.append(Violation("auto_number", c, o, "a new name that is not in use; nothing else touched",
+                                       f"{c['writer']}(run_number=None) in a directory holding {c['mids']}: returned "
+                                       f"number part {o['new']!r}, existing files intact: {o['intact']}, new files: "
+                                       f"{o['created']}",
+                                       dict(clause="auto_number", writer=c["writer"],
+                                            reused=o["new"] in c["mids"])))
         elif kind == "writer":
             for i in lists[0]:
                 c, o = chunk[i]
@@ -403,7 +920,7 @@ def account(ctx: Ctx, by_kind):
     for kind, pairs in by_kind.items():
         for c, o in pairs:
             ctx.count("evaluations")
-            ctx.dist("kind", kind if kind != "flow" else f"flow/{c['mode']}")
+            ctx.dist("kind", kind if kind not in ("flow", "hist") else f"{kind}/{c['mode']}")
             key = json.dumps(c, sort_keys=True)
             nontrivial = False
             if kind == "dirs_seq":
@@ -418,6 +935,23 @@ def account(ctx: Ctx, by_kind):
                 nontrivial = True
             elif kind == "writer":
                 nontrivial = c["exists"]
+            elif kind == "auto":
+                ctx.dist("auto_matches", len(c["mids"]))
+                nontrivial = len(c["mids"]) >= 2
+            elif kind == "hist":
+                nsim = sum(1 for x in c["ops"] if x[0] in ("run", "start"))
+                ctx.dist("hist_simulations", nsim)
+                for x in c["ops"]:
+                    if x[0] == "edit":
+                        ctx.dist("hist_edit", x[1]["op"] + ("" if x[1].get("inplace", True) or x[1]["op"] in
+                                                            ("set", "folder", "prefix") else "/assigned"))
+                ctx.dist("hist_deferred", any(x[0] == "start" for x in c["ops"]))
+                ctx.count("hist_runs_judged", len(o["recs"]))
+                ctx.count("files_read_back", sum(len(fl) for _, fl in o["final"]))
+                ctx.count("reported_entries", sum(len(x["rep"]) for x in o["recs"]))
+                for x in o["recs"]:
+                    ctx.dist("hist_outcome", x["err"] or "ok")
+                nontrivial = nsim >= 2 and any(x[0] == "edit" for x in c["ops"])
             else:
                 ctx.dist("flow_outcome", o["err"] or "ok")
                 ctx.dist("prepopulated", len(c["pre"]))
@@ -432,10 +966,13 @@ def run(ctx: Ctx):
     from translator import c19 as tr
 
     ctx.trusted += TRUSTED
+    ctx.max_reported = 8
     ctx.assumptions += [
         "os.mkdir is atomic: one mkdir attempt is one step of the interleaving semantics",
         "an explicit refusal (NotImplementedError for hdf/txt/csv/png in save_to_files, FileExistsError) is not "
         "counted as a missing file; it must leave existing files untouched",
+        "a simulation is judged against the request / folder / prefix in force when run_mode was called for it; an "
+        "edit in place and the assignment of an edited copy mean the same",
         "the deprecated exposure_mode/_run_exposure_pipeline_deprecated path (apply_run_number with glob) is outside "
         "the model",
     ]
@@ -446,6 +983,7 @@ def run(ctx: Ctx):
         ctx.broken.append(Broken("translation", "pyxel/outputs (mkdir loop / writers / dispatch)", str(ex)))
         ctx.log("translation failed:", ex)
         gen["Gen_C19.v"] = tr.FALLBACK
+    ctx.cov["_gen_text"] = gen["Gen_C19.v"]
     core.proof_leg(ctx, gen, PROP_FILE)
 
     cases = gen_all(ctx, "cases")
@@ -456,16 +994,21 @@ def run(ctx: Ctx):
     if ctx.broken and not new_violations(ctx):
         search(ctx)
     ctx.cov.pop("_seen", None)
+    ctx.cov.pop("_gen_text", None)
 
 
 def finish_cov(ctx, by_kind, mism):
     ctx.cov["distinct_nontrivial"] = len(ctx.cov.get("_seen", ()))
     ctx.cov["rule"] = ("non-trivial = a start that met at least one occupied candidate; an interleaving in which at "
                        "least two creators took steps; every truly concurrent start; a writer called on an existing "
-                       "target; a flow with pre-populated names or more than one reported file")
+                       "target; a flow with pre-populated names or more than one reported file; a history with at "
+                       "least two simulations and one edit in between")
     ctx.cov["traces_validated_against_impl"] = sum(len(v) for k, v in by_kind.items() if k in HAS_MODEL)
     ctx.cov["disagreements_checked"] = len(mism)
-    ctx.cov["exhaustive"] = False
+    ctx.cov["exhaustive"] = ("histories [run, one edit, run] over the 10 kinds of edit: exposure, in place"
+                             if ctx.quick else
+                             "histories [run, one edit, run] over the 10 kinds of edit, in place and by assignment, in "
+                             "exposure / sequential / parallel observation, plus [start, edit, start, compute, compute]")
     for kind, pairs in by_kind.items():
         if pairs:
             c, o = pairs[len(pairs) // 2]
@@ -473,14 +1016,36 @@ def finish_cov(ctx, by_kind, mism):
 
 
 def record(ctx: Ctx, mism, viols):
-    viols = sorted(viols, key=lambda v: size_of(v.case))     # smallest failing case first per signature
-    ctx.violations += viols
+    viols = order_violations(viols)
+    fs = core.load_findings(ctx.prop)
+    shrunk, done = [], set()
+    for v in viols:
+        k = (v.clause, v.sig.get("mode"), v.sig.get("cause"), v.sig.get("deferred"))
+        if (v.case.get("kind") == "hist" and k not in done and len(done) < 3
+                and not any(core.finding_matches(e, v) for e in fs)):
+            done.add(k)
+            v = shrink_hist(ctx, v)
+        shrunk.append(v)
+    ctx.violations += shrunk
     (ctx.build / "mismatches.json").write_text(json.dumps([dict(case=c, observed=o) for c, o in mism], indent=1))
     for c, o in mism[:20]:
         ctx.broken.append(Broken("correspondence", "Model/Outputs.v vs implementation",
                                  f"model and implementation differ on a {c['kind']} case"
-                                 + (f" ({c['mode']})" if c["kind"] == "flow" else ""),
+                                 + (f" ({c['mode']})" if c["kind"] in ("flow", "hist") else ""),
                                  dict(case=c, observed=o)))
+
+
+def order_violations(viols):
+    """Smallest failing case first; one representative of every kind of failure (clause, mode, cause, lazy or
+    not) before further signatures of a kind already shown (core prints a bounded number of signatures)."""
+    viols = sorted(viols, key=lambda v: size_of(v.case))
+    first, rest, seen = [], [], set()
+    for v in viols:
+        k = (v.clause, v.sig.get("mode"), v.sig.get("cause"), v.sig.get("writer"), v.sig.get("deferred"),
+             v.sig.get("how"))
+        (rest if k in seen else first).append(v)
+        seen.add(k)
+    return first + rest
 
 
 def new_violations(ctx: Ctx):
@@ -498,7 +1063,7 @@ def search(ctx: Ctx):
                           prefixes=["", "", ""]))
     by_kind, mism, viols = evaluate(ctx, cases, "s")
     account(ctx, by_kind)
-    ctx.violations += sorted(viols, key=lambda v: size_of(v.case))
+    ctx.violations += order_violations(viols)
     ctx.cov["search_cases"] = sum(len(v) for v in by_kind.values())
     ctx.cov["distinct_nontrivial"] = len(ctx.cov.get("_seen", ()))
 
@@ -539,26 +1104,34 @@ META = dict(
         "that was not there, within |fs|+1 attempts, for every finite file system; for every interleaving of N "
         "concurrent creators (same timestamp or not) the returned directories are pairwise distinct and none "
         "pre-existed, and no creator fails more than |fs|+N times; both file-name renderings are injective on "
-        "(bucket, run suffix, extension); with the writer behaviour table regenerated from outputs/utils.py, every "
-        "writer except the ones without an existence test leaves existing files untouched and so do the exposure and "
-        "parallel-observation flows; in a directory without colliding names every reported file holds the bucket of "
-        "the run it is attributed to; exactly one reported file per requested (bucket, format, run). The full "
-        "statements that the unchanged tree refutes (to_txt/to_csv/to_hdf overwrite; the new writers skip an existing "
-        "file silently yet its name is reported; sequential observation saves only the first entry of each dict) stay "
-        "visible with proved witnesses and are known findings. That the model is the code is established by "
-        "correspondence, i.e. by testing: with the timestamp frozen, sequential starts, forced interleavings of gated "
-        "mkdir attempts, unsynchronised thread/process starts, every writer on existing/absent targets, and complete "
-        "exposure / sequential / dask observation runs with pre-populated colliding names are executed; listing, byte "
-        "preservation, the /output node and the decoded content of every npy/fits file are compared with the model "
-        "and judged against the specification inside Coq."),
+        "(bucket, run suffix, extension); with the writer behaviour table and the flow-shape flags regenerated from "
+        "the source, every writer leaves existing files untouched and so do the exposure, parallel-observation and "
+        "sequential-observation flows (runs ending in an exception included); in ANY directory every reported file "
+        "holds the bucket of the run it is attributed to; the reported files are exactly one per requested (bucket, "
+        "format, run), under that combination's name, in all three flows. Histories on ONE configuration object, by "
+        "induction over the operation sequence Edit | Run | Start | Compute (edits of the request in place or by "
+        "assignment, of the folder and the prefix; lazily computed dask observations with an invariant over the "
+        "pending results): every simulation is exactly the standalone flow on the request, folder and prefix in "
+        "force when it STARTED, in a directory it created itself and nobody had, directories pairwise distinct, "
+        "every other directory unchanged at the end of the history, completeness / attribution / never-clobbered "
+        "per simulation. Each theorem discharges a boolean condition on the regenerated tables by vm_compute and "
+        "fails when the code stops meeting it. That the model is the code is established by correspondence, i.e. by "
+        "testing: with the timestamp frozen, sequential starts, forced interleavings of gated mkdir attempts, "
+        "unsynchronised thread/process starts, every writer on existing/absent targets, complete exposure / "
+        "sequential / dask observation runs with pre-populated colliding names, and histories of 2-4 simulations on "
+        "one running-mode object with edits in between (all three modes, deferred computes) are executed; listing, "
+        "byte preservation, the /output node and the decoded content of every npy/fits file (which carries the "
+        "simulation number) are compared with the model and judged against the specification inside Coq."),
     level_note=(
         "Trusted: Coq kernel + vm_compute; translator/c19.py; the correspondence harness and its wrappers (frozen "
-        "datetime, gated Path.mkdir, pre-population after create_output_folder). Not carried by the theorems: "
-        "atomicity of os.mkdir, the file codecs (numpy, astropy, PIL, pandas), xarray's construction of the /output "
-        "node, dask scheduling; h5py is absent so to_hdf is only translated, never executed; lossy formats (jpg, "
-        "jpeg, png) are checked for existence and validity only; the sequential-observation flow is modelled and "
-        "compared but its never-clobber/attribution theorems are not proved (only the refutation of completeness)."),
-    technique="Coq proof (interleaving semantics, injective rendering, regenerated writer table) + in-Coq "
-              "correspondence/spec evaluation against frozen-clock runs",
+        "datetime, gated Path.mkdir, pre-population after create_output_folder, one pipeline object per simulation). "
+        "Not carried by the theorems: atomicity of os.mkdir, the file codecs (numpy, astropy, PIL, pandas), xarray's "
+        "construction of the /output node, dask scheduling (for a parallel observation that fails, which other "
+        "runs' files were already written is not compared); h5py is absent so to_hdf is only translated, never "
+        "executed; lossy formats (jpg, jpeg, png) are checked for existence and validity only; the deprecated "
+        "exposure_mode path (apply_run_number with glob) is outside the model; the pipeline object a lazy dask "
+        "observation reads at compute time is C06's subject, not modelled here."),
+    technique="Coq proof (interleaving semantics, injective rendering, regenerated writer table and flow flags, "
+              "induction over operation sequences) + in-Coq correspondence/spec evaluation against frozen-clock runs",
     design_ref="DESIGN.md section 6, C19; section 7, F17",
 )
